@@ -459,14 +459,16 @@ def retyped_segments(ctx, S, rng):
                     seg = {"descriptor_type_code": c1 if form == "int" else DO.SEG_NAMES[c1][0], "cat": rng.getrandbits(1), sk: rng.getrandbits(16), dk: rng.getrandbits(16)}
                     a["_kwargs"]["segment_descriptor_list"] = [seg]
                     ctx.case(("retyped", name, c1, c2, form), c1 != c2, sample={"cmd": name, "segment_retyped": [c1, c2]} if ctx.want_sample() else None)
+                    pristine = copy.deepcopy(a)  # what the caller wrote, before the library ever saw it
                     try:
                         harness.construct(c, c.sets[0], a)
                         seg["descriptor_type_code"] = c2 if form == "int" else DO.SEG_NAMES[c2][0]
-                        want = harness.construct(c, c.sets[0], copy.deepcopy({"_kwargs": {k: copy.deepcopy(v) for k, v in a["_kwargs"].items()}, **{k: v for k, v in a.items() if k != "_kwargs"}}))
+                        pristine["_kwargs"]["segment_descriptor_list"][0]["descriptor_type_code"] = seg["descriptor_type_code"]
+                        want = harness.construct(c, c.sets[0], pristine)
                     except Exception:  # noqa: BLE001
                         ctx.count("retyped_segment_refused")
                         continue
-                    # `want` was built from a deep copy of the caller's objects as they are now; the caller's own objects next
+                    # `want` comes from a freshly written dictionary with the same contents; the caller's own, used objects next
                     try:
                         got = harness.construct(c, c.sets[0], a)
                     except Exception as e:  # noqa: BLE001
